@@ -262,6 +262,27 @@ def run(ctx):
     if not term_ok:
         ctx.violation({"kind": "implicit-iteration-does-not-terminate", "default_tolerance": True},
                       "three implicit steps with the operator's default tolerance did not complete: %s" % term_msg, {})
+    if term_ok:
+        try:
+            errs = [float(x) for x in next(l for l in pr.stdout.splitlines() if l.startswith("ORDER ")).split()[1:]]
+            conv = float(next(l for l in pr.stdout.splitlines() if l.startswith("CONV ")).split()[1])
+            form = float(next(l for l in pr.stdout.splitlines() if l.startswith("FORM ")).split()[1])
+        except Exception as ex:
+            raise Machinery("c12term output not understood: %s / %s" % (ex, pr.stdout[-300:]))
+        ctx.count(("implicit-default-tolerance-third-order",))
+        ctx.count(("implicit-default-tolerance-converged",))
+        ratios = [a / b for a, b in zip(errs, errs[1:]) if b > 0]
+        if not all(r >= 6.0 for r in ratios):
+            ctx.violation({"kind": "explicit-implicit-not-third-order", "default_tolerance": True},
+                          "explicit and default-tolerance implicit step differ by %s for dt = 2^-3 .. 2^-8 (interior nodes): not third order" % errs, {"errs": errs})
+        ctx.count(("step-on-a-strided-view",))
+        if not form <= 1e-13:
+            ctx.violation({"kind": "strided-argument", "default_tolerance": True},
+                          "a step on a strided view of the caller's array differs by %g from the step on a contiguous copy (or wrote outside the view)" % form, {"dev": form})
+        if not conv <= 1e-9:
+            ctx.violation({"kind": "implicit-iteration-not-converged", "default_tolerance": True},
+                          "the implicit step with the operator's default tolerance differs by %g from the same step iterated to 1e-12 (interior nodes, "
+                          "sheared vortex, dt = 0.3, -0.5; unmodified code: about 3e-11)" % conv, {"dev": conv})
     # the grid-level entry points (per-z potential splines, reused by gridStep_SplinesUnchanged) against `step` applied by hand to every
     # local (v, z) plane with the plane's own velocity and potential
     from harness import gridops
